@@ -144,3 +144,55 @@ def run_dispatch(tcfg, pid):
     r['status'] = 'failed' if r['failures'] else 'verified'
     r['wall_s'] = round(time.time() - t0, 2)
     return r
+
+
+def script_catalogue():
+    rows = []
+    for l in open(os.path.join(VERIF, 'spec', 'script_catalogue.txt')):
+        if l.startswith('#') or not l.strip():
+            continue
+        rows.append(tuple(l.split()))
+    return rows
+
+
+def run_script_parse(tcfg, pid):
+    """Exhaustive check of the name match of CommandParser::parse (the script path) against spec/script_catalogue.txt: for every
+    catalogued command the arm that matches its name is exactly `Command::<Category>(Self::<parse fn>(frames)?)` — the command's own
+    parser, applied to the whole frame list, wrapped in the category whose execute_* function holds the proved arm. Arms are read
+    from the AST index of the real file on every run. Finite domain, enumerated completely."""
+    t0 = time.time()
+    r = {'unit': tcfg['name'], 'status': None, 'failures': [], 'cases': 0, 'samples': []}
+    rel = 'src/storage/commands/executor.rs'
+    try:
+        idx = gen.index(rel)
+        fn = gen.find_fn(idx, rel, 'CommandParser::parse')
+        src = idx['src']
+        big = max(fn.get('matches', []), key=lambda m: len(m['arms']))
+        if len(big['arms']) < 40:
+            raise gen.GenError('lost-anchor: name match of CommandParser::parse not found')
+    except gen.GenError as e:
+        r['status'] = 'undecided'
+        r['reason'] = str(e)
+        return r
+    arms = {}
+    for a in big['arms']:
+        for m in re.finditer(r'"([A-Z]+)"', a['pat']):
+            arms.setdefault(m.group(1), []).append(a)
+    r['repo'] = f"{rel}:{gen.line_of(idx, big['span'][0])}-{gen.line_of(idx, big['span'][1])}"
+    r['sha256'] = hashlib.sha256(src[big['span'][0]:big['span'][1]]).hexdigest()
+    for cmd, cat, pfn in script_catalogue():
+        r['cases'] += 1
+        al = arms.get(cmd)
+        if not al:
+            r['failures'].append({'case': cmd, 'what': f'command {cmd} is no longer parsed on the script path (no arm matches its name)', 'inputs': {'command': cmd}})
+            continue
+        # the FIRST arm whose pattern names the command is the one that runs
+        a = min(al, key=lambda x: x['span'][0] if 'span' in x else x['body'][0])
+        body = gen.normtok(src[a['body'][0]:a['body'][1]].decode()).rstrip(',')
+        want = f'Command::{cat}(Self::{pfn}(frames)?)'
+        if body != want:
+            r['failures'].append({'case': cmd, 'what': f'{cmd} is parsed by `{body[:120]}`, expected `{want}`', 'inputs': {'command': cmd}})
+    r['samples'] = [{'case': c, 'category': k, 'parser': f} for (c, k, f) in script_catalogue()[:3]]
+    r['status'] = 'failed' if r['failures'] else 'verified'
+    r['wall_s'] = round(time.time() - t0, 2)
+    return r
